@@ -178,3 +178,26 @@ class Ctx:
               f"{len(known_v)} known findings, {len(new_v)} violations; rules "
               + ", ".join(f"{k}={v}" for k, v in sorted(self.rule_instances.items())))
         return 1 if new_v else 0
+
+
+def renamed(ctx, mapping):
+    """A view of `ctx` under which a rule table of another property reports with this property's rule ids
+    (`mapping`: foreign rule id -> own rule id).  Shares all state with `ctx`."""
+    base = type(ctx)
+
+    class _Renamed(base):
+        def rule(s, rid, text):
+            return base.rule(s, mapping.get(rid, rid), text)
+
+        def ob(s, rid, *a, **k):
+            return base.ob(s, mapping.get(rid, rid), *a, **k)
+
+        def floor(s, rid, *a, **k):
+            return base.floor(s, mapping.get(rid, rid), *a, **k)
+
+        def sample(s, rid, *a, **k):
+            return base.sample(s, mapping.get(rid, rid), *a, **k)
+
+    r = _Renamed.__new__(_Renamed)
+    r.__dict__ = ctx.__dict__
+    return r
